@@ -25,9 +25,11 @@ CHECKS = {
         text="Necessary structural conditions of exactly-once enumeration, decided for every input: counter width holds 1326 positions; "
              "every (combo, weight) of every range is copied into the entry lists unconditionally (filters may only look at the combo and the "
              "board) and the lists are never shrunk or reordered; the iterator's board is the evaluator's board; every card tested against "
-             "the used-card set is also recorded (turn, river, both hole cards, unconditionally); the flop is blocked by the showdown "
+             "the used-card set is also recorded (turn, river, both hole cards, unconditionally) and a hit of either hole card blocks the deal "
+             "(no path to Showdown::new except through clearing the guarding flag); the flop is blocked by the showdown "
              "constructor's board test; probability = 1.0 times every chosen weight; board order b0..b4 with b3=deck[turn], b4=deck[river]; "
-             "mixed-radix odometer: bound idx+1<len, +=1, scan from the last player stopping at the first hit, reset (advanced+1)..len. "
+             "mixed-radix odometer: bound idx+1<len, +=1, scan over all players from the last one stopping at the first hit, suffix reset "
+             "(advanced+1)..len on every path after an advance, whole reset with every (turn, river) advance. "
              "That these structural facts add up to exactly-once over all runtime states is argued in DESIGN.md, not machine-checked.",
         ref="DESIGN.md §4 C02",
         note=TB + "; decides the named clauses, not the enumeration behaviour.",
@@ -36,7 +38,7 @@ CHECKS = {
     "C08": dict(
         cat="other",
         text="Bounded stack is decided for every input: the resolved call graph (closures, trait-bound callbacks) under the "
-             "four evaluator entry points is acyclic. Counter narrowing, the emptiness guard of every entry-list index and "
+             "four evaluator entry points is acyclic. Counter narrowing, the emptiness guard of every entry-list index (over all players' lists) and "
              "range constructions are decided by dataflow/dominance; every other potential panic site reachable from the "
              "entry points (asserts, unwraps, indexing, panicking std calls; both overflow-check profiles in the thorough "
              "tier) must be discharged by a rule or match an audited allowance with a stated invariant. Termination of "
@@ -52,7 +54,9 @@ CHECKS = {
              "contains(board,p[0]) || contains(board,p[1]) and before evaluation; single-pass minimum discipline (best "
              "starts at u16::MAX, reset+clear under <, insert under <= with ties kept, a new best is always inserted); "
              "the seat index flows only into the winner set; the win flag is false at construction, set for members of "
-             "the winner set, and winner_len counts it over all players. The full winner relation over all boards and "
+             "the winner set (or, two-pass form: best = min over all players, then win = (p == best) for every player), and winner_len counts it "
+             "over all players; each record stores the player's own pair, the board in order and the evaluated hand, and cards() returns "
+             "those seven cards. The full winner relation over all boards and "
              "tie patterns is NOT decided.",
         ref="DESIGN.md §4 C03",
         note=TB + "; recognises the single-pass-minimum idiom present in the tree (a redesign fails closed).",
@@ -80,7 +84,8 @@ CHECKS = {
              "summarised), the weight is read from where the shape ends; expansion walks RankRange::inclusive with the prescribed endpoints, "
              "builds the prescribed rank pair per step with the token's weight and never branches on the weight; 6/4/12 combo tables "
              "complete and duplicate-free; card pairs go through the normalising constructor; the range parser strips spaces, splits on ',', "
-             "parses every piece, inserts in token order into the returned map and cannot fail. The end-to-end relation over all token lists "
+             "parses every piece, inserts in token order into the returned map and cannot fail; every shape's optional tail accepts every weight "
+             "literal of the notation (0, 1, 0.d+, 1.0+; word sets up to 6 characters compared). The end-to-end relation over all token lists "
              "is NOT decided.",
         ref="DESIGN.md §4 C05",
         note=TB + "; the table of expected positions (rules/c05.py SPEC) is the checker's statement of standard notation.",
